@@ -8,7 +8,7 @@ PROPERTY = 'C07'
 LEVEL = 'exploration'
 RULE = ('exprs = parse_smtlib(text) for Hypothesis-drawn G-lex texts (so the '
         'domain is exactly "lists obtainable from the parser"); each of the four '
-        'renderers (compact checking file, default, --pretty-print, --wrap-lines) '
+        'renderers (compact checking file; default, --pretty-print, --wrap-lines each as a string and through write_smtlib_to_file, the way the output file is written) '
         'must (1) re-parse to a structurally identical list (comments modulo line '
         'terminator) and (2) have the reference token sequence equal to the flat '
         'token sequence of the parsed tree.  Non-trivial: the text has a token '
@@ -21,7 +21,7 @@ ASSUMPTIONS = [
     'token sequences are computed by the independent reference tokenizer',
 ]
 
-RENDERERS = ['checking', 'default', 'pretty', 'wrap']
+RENDERERS = ['checking', 'default', 'pretty', 'wrap', 'default-file', 'pretty-file', 'wrap-file']
 
 
 def render(dd, which, exprs, workdir):
@@ -34,8 +34,15 @@ def render(dd, which, exprs, workdir):
             return f.read()
     old = (args.pretty_print, args.wrap_lines)
     try:
-        args.pretty_print = which == 'pretty'
-        args.wrap_lines = which == 'wrap'
+        args.pretty_print = which.startswith('pretty')
+        args.wrap_lines = which.startswith('wrap')
+        if which.endswith('-file'):
+            # the way the output file is written in a run
+            os.makedirs(workdir, exist_ok=True)
+            fn = os.path.join(workdir, 'c07-out.smt2')
+            dd.nodeio.write_smtlib_to_file(fn, exprs)
+            with open(fn, newline='') as f:
+                return f.read()
         return dd.nodeio.write_smtlib_to_str(exprs)
     finally:
         args.pretty_print, args.wrap_lines = old
